@@ -24,6 +24,19 @@ CHECKS = {
             "heads must raise LocalProtocolError with nothing written.",
             "Own decoders are the reference; header-name case on HTTP/1.1 and connection-specific headers are outside the oracle.",
             "3 C03"),
+    "C05": ("fault_enumeration",
+            "exhaustive fault-position x fault-kind and cancellation-point x style enumeration over base scenarios on a harness-scheduled asyncio run, plus Hypothesis-drawn fault/cancel/schedule combinations; oracle = pool state predicates and a behavioural capacity probe",
+            "For 17 connection kinds x 4 contexts x 3 request shapes: one run per fault-eligible network op index and documented fault kind, and "
+            "one per suspension point of the victim and cancellation style (asyncio task.cancel, anyio scope); afterwards the pool must count no "
+            "request, hold no stuck connection, and serve max_connections simultaneous probe requests without waiting.",
+            "asyncio + anyio only (no trio run); SimNet stands for the backends; known open findings are matched by signature and listed.",
+            "3 C05"),
+    "C06": ("fault_enumeration",
+            "same enumerated and generated runs as C05 with a stream ledger oracle (opened / owned / closed) over the simulated network",
+            "Every run of the C05 enumeration is followed by pool.aclose(); every open stream must be reachable from a pooled connection before "
+            "the close and none may be open after it.",
+            "ownership = reachability through httpcore objects from pool.connections; 'open' means the simulated pipe.",
+            "3 C06"),
     "C10": ("exploration",
             "exhaustive configuration matrix + Hypothesis request histories over near-miss origins; oracle = establishment chain of the pipe that carried each token",
             "All 1080 cells of scheme x port form x proxy mode x http1/http2 x ALPN outcome x sni (sync and async) and sampled sequential "
